@@ -87,6 +87,7 @@ fn check_rejected(res: ohkami::Response) {
 #[kani::stub(ohkami::util::unix_timestamp, stubs::unix_timestamp_zero)]
 #[kani::stub(core::str::from_utf8, stubs::from_utf8_model)]
 #[kani::stub(core::slice::memchr::memchr, stubs::memchr_model)]
+#[kani::stub(core::slice::memchr::memrchr, stubs::memrchr_model)]
 #[kani::unwind(12)]
 fn c13_single_pair() {
     let (mut req, hv) = request_with_authorization(b"Basic ");
@@ -108,6 +109,7 @@ fn c13_single_pair() {
 #[kani::stub(ohkami::util::unix_timestamp, stubs::unix_timestamp_zero)]
 #[kani::stub(core::str::from_utf8, stubs::from_utf8_model)]
 #[kani::stub(core::slice::memchr::memchr, stubs::memchr_model)]
+#[kani::stub(core::slice::memchr::memrchr, stubs::memrchr_model)]
 #[kani::unwind(12)]
 fn c13_two_pairs() {
     let (mut req, hv) = request_with_authorization(b"Basic ");
@@ -128,6 +130,7 @@ fn c13_two_pairs() {
 #[kani::stub(ohkami::util::unix_timestamp, stubs::unix_timestamp_zero)]
 #[kani::stub(core::str::from_utf8, stubs::from_utf8_model)]
 #[kani::stub(core::slice::memchr::memchr, stubs::memchr_model)]
+#[kani::stub(core::slice::memchr::memrchr, stubs::memrchr_model)]
 #[kani::unwind(12)]
 fn c13_empty_user_and_colon_password() {
     let (mut req, hv) = request_with_authorization(b"Basic ");
@@ -151,6 +154,7 @@ fn c13_empty_user_and_colon_password() {
 #[kani::stub(ohkami::util::unix_timestamp, stubs::unix_timestamp_zero)]
 #[kani::stub(core::str::from_utf8, stubs::from_utf8_model)]
 #[kani::stub(core::slice::memchr::memchr, stubs::memchr_model)]
+#[kani::stub(core::slice::memchr::memrchr, stubs::memrchr_model)]
 #[kani::unwind(12)]
 fn c13_scheme_and_missing_header() {
     let missing: bool = kani::any();
